@@ -5,7 +5,7 @@
 package scanner
 
 //@ func min
-//@ props C16
+//@ props C16 C20
 //@ pure
 //@ ensures [the-smaller-of-the-two] (a < b ==> result == a) && (a >= b ==> result == b)
 
@@ -14,7 +14,7 @@ package scanner
 // and no range reaches past the current end; when it stops because the range is exhausted the
 // cursor is exactly at the end.
 //@ func (*Fetcher).genRanges$1
-//@ props C16
+//@ props C16 C20
 //@ arith int
 //@ site send#1 as snd
 //@ site updateSTH#1 as up
@@ -27,7 +27,7 @@ package scanner
 //@ at up assert [waits-for-a-bigger-tree-only-when-the-range-is-exhausted] start >= end && f.opts.Continuous
 
 //@ func (*Fetcher).updateSTH
-//@ props C16
+//@ props C16 C20
 //@ arith int
 //@ site Retry#1 as rt
 //@ requires f != nil && f.opts != nil && f.client != nil && ctx != nil && f.opts.EndIndex >= 0
@@ -39,7 +39,7 @@ package scanner
 // The body of the retry loop in updateSTH: it reports success only for an STH strictly bigger than
 // the size the Fetcher had reached, and only then moves EndIndex (to exactly that size).
 //@ func (*Fetcher).updateSTH$1
-//@ props C16
+//@ props C16 C20
 //@ arith int
 //@ site GetSTH#1 as gs
 //@ requires f != nil && f.opts != nil && f.client != nil && ctx != nil && f.sthBackoff != nil
@@ -54,7 +54,7 @@ package scanner
 // advances the cursor by the number of entries delivered; it leaves the range only when the cursor
 // has passed its end (or the context ended).
 //@ func (*Fetcher).runWorker
-//@ props C16
+//@ props C16 C20
 //@ arith int
 //@ site recv#1 as rcv
 //@ site Retry#1 as rt
@@ -73,7 +73,7 @@ package scanner
 // One attempt of a worker: it requests exactly [cursor, end of the range] and reports success only
 // with a reply in hand.
 //@ func (*Fetcher).runWorker$1
-//@ props C16
+//@ props C16 C20
 //@ arith int
 //@ modifies nothing
 //@ frame-trusted assigns only the captured variable resp (havocked at the call of Retry)
@@ -85,7 +85,7 @@ package scanner
 
 // Prepare fixes the range once: EndIndex is clamped to the tree size of the STH it caches.
 //@ func (*Fetcher).Prepare
-//@ props C16
+//@ props C16 C20
 //@ arith int
 //@ site GetSTH#1 as gs
 //@ requires f != nil && f.opts != nil && f.client != nil && ctx != nil
